@@ -661,8 +661,6 @@ struct Raster : Profile {
                 // origin index is the row
                 if (!m.exists || !m.chunked || m.w != m.h || m.cw != m.chh)
                     done = false;
-                else if (m.slab_touched && p.knob("unguard_chunk_mixed", 0) == 0)
-                    done = false; // known finding C09-writechunk-mixed-with-slab: one interface per image and session
                 else {
                     int   nch = (m.w + m.cw - 1) / m.cw, a = modn(o.arg(1), nch);
                     int32 origin[2] = {a, a};
